@@ -420,8 +420,11 @@ class RaftNode(Entity):
             )
             return [resp]
 
-        if term >= self._current_term:
+        if term > self._current_term:
             self._step_down(term)
+        elif self._state == RaftState.CANDIDATE:
+            # A leader exists for this term: stop campaigning but keep the vote already cast
+            self._state = RaftState.FOLLOWER
         self._leader = leader_id
         self._current_term = term
 
